@@ -5,12 +5,33 @@ type Rng struct{ s uint64 }
 
 func NewRng(seed uint64) *Rng { return &Rng{s: seed*0x9E3779B97F4A7C15 + 0x1234567} }
 
-func (r *Rng) U64() uint64 {
+func (r *Rng) raw() uint64 {
 	r.s += 0x9E3779B97F4A7C15
 	z := r.s
 	z = (z ^ (z >> 30)) * 0xBF58476D1CE4E5B9
 	z = (z ^ (z >> 27)) * 0x94D049BB133111EB
 	return z ^ (z >> 31)
+}
+
+// Search mode only (the check sets VERIF_DICT / VERIF_DICT_BYTES when a tie to the source broke and a differential
+// run against the baseline named values on which the behaviour changed): one draw in six is a dictionary value, so
+// that the property's own generators and oracles are steered towards the inputs on which the code now differs.
+var dictU64 []uint64
+var dictBytes [][]byte
+
+func (r *Rng) U64() uint64 {
+	z := r.raw()
+	if len(dictU64) > 0 && z%6 == 0 {
+		v := dictU64[(z>>8)%uint64(len(dictU64))]
+		switch (z >> 40) % 4 {
+		case 0:
+			return v + 1
+		case 1:
+			return v - 1
+		}
+		return v
+	}
+	return z
 }
 func (r *Rng) Intn(n int) int {
 	if n <= 0 {
@@ -24,6 +45,14 @@ func (r *Rng) Bytes(n int) []byte {
 	b := make([]byte, n)
 	for i := range b {
 		b[i] = r.Byte()
+	}
+	if len(dictBytes) > 0 && n > 0 && r.raw()%4 == 0 {
+		d := dictBytes[r.raw()%uint64(len(dictBytes))]
+		if r.raw()%2 == 0 {
+			copy(b, d)
+		} else if len(d) <= n {
+			copy(b[n-len(d):], d)
+		}
 	}
 	return b
 }
